@@ -52,6 +52,21 @@ TWire ==
         THEN Check(ev.self_ok /\ ev.self_pos = ev.self_len, "C04",
                    "decode(encode(x)) with a sibling following differs from x or does not consume exactly the box", <<Id, ev.self_ok, ev.self_pos, ev.self_len>>)
         ELSE TRUE
+     \* C04 / C05 on the value CONSTRUCTED from v with the library's public fields (not obtained from the
+     \* decoder): the library encodes it to the reference bytes, returns the count, and decoding those
+     \* bytes with a sibling following yields a value == the constructed one, at the end of the box
+     /\ LET b == ev.built IN
+        IF b.res \in {"none", "unbuildable"} THEN TRUE
+        ELSE /\ Check(b.res = "ok", "C04", "a representable value is not encoded", <<Id, b.res, b.msg>>)
+             /\ IF b.res # "ok" THEN TRUE
+                ELSE /\ Check(IF OrderFree(ev.t)
+                              THEN Whole(b.enc).ok /\ Whole(b.enc).s = Len(b.enc) /\ DecAny(ev.t, b.enc, Whole(b.enc)) = ev.v
+                              ELSE b.enc = ev.enc,
+                              "C05", "bytes produced for a constructed value differ from the reference layout", Id)
+                     /\ Check(b.ret = Len(b.enc) /\ b.box_size = Len(b.enc), "C04",
+                              "returned count / box_size() differ from the bytes written (constructed value)", <<Id, b.ret, b.box_size, Len(b.enc)>>)
+                     /\ Check(b.rt_res = "ok" /\ b.rt_eq /\ b.rt_pos = Len(b.enc), "C04",
+                              "decode(encode(x)) differs from the constructed x or does not consume exactly the box", <<Id, b.rt_res, b.rt_eq, b.rt_pos, Len(b.enc)>>)
      /\ Check(ev.dec.res # "ok" \/ ev.dec.hdr_type = CodeOf(ev.t), "C05", "header read with another box type", <<Id, ev.dec.hdr_type>>)
      /\ \A i \in 1..Len(ev.variants) :
           LET x == ev.variants[i] IN
